@@ -126,7 +126,7 @@ impl SearchStream {
     }
     pub open spec fn direct(&self) -> bool { self.adapters@.len() == 0 }
 
-    // contract of start_inner (request construction + op_call); discharged on its own text in unit V-ldap
+    // contract of start_inner (request construction + op_call); discharged on its own text in unit V-search (whole function)
     #[verifier::external_body]
     pub fn start_inner(&mut self, base: &str, scope: Scope, filter: &str, attrs: A) -> (r: Result<()>)
         ensures
